@@ -397,8 +397,21 @@ func runC19(r *Run) {
 					st.Violation(addTo, instrPos(c), "SetType("+exprDepth(c.Call.Args[1], 0)+")", "the type handed to SetType is not the receiver as given: for some method/class the message is typed differently from what the setter was asked for, so what is encoded does not decode to the requested type")
 				}
 			})
+			if n == 0 && msg != nil {
+				// SetType written out in place: the store of Message.Type takes the receiver as given
+				for _, a := range fieldAccesses(addTo, FieldVar(msg, "Type")) {
+					if a.Kind != "store" {
+						continue
+					}
+					n++
+					st.Instance(fnName(addTo)+"|store Type", true, nil)
+					if !asGiven(addTo, a.Instr.(*ssa.Store).Val, addTo.Params[0]) {
+						st.Violation(addTo, instrPos(a.Instr), "Message.Type = "+exprDepth(a.Instr.(*ssa.Store).Val, 0), "the type stored into the message is not the receiver as given")
+					}
+				}
+			}
 			if n == 0 {
-				st.Fail(fnName(addTo), "no call of SetType found in MessageType.AddTo")
+				st.Fail(fnName(addTo), "MessageType.AddTo neither calls SetType nor stores Message.Type")
 			}
 		} else {
 			st.Fail("MessageType.AddTo / Message.SetType", "not found")
@@ -480,5 +493,5 @@ func runC19(r *Run) {
 		dc.Done()
 	}
 	// the type value reaches bytes [0:2) of the header unchanged (shared with C03)
-	r.Borrow("C03", map[string]string{"C03.header": "C19.header"})
+	r.Borrow("C03", map[string]string{"C03.header": "C19.header", "C03.hdrbounds": "C19.hdrbounds", "C03.cohere": "C19.cohere"})
 }
